@@ -2,10 +2,9 @@
 // scheduler (the custom-lock seam), so it never executes RLBOX_ACQUIRE_*_GUARD as the library
 // defines them.  This driver keeps the defaults (std::shared_timed_mutex and the library's guard
 // macros) and asks, at every access to the list of live sandboxes reported by the
-// RLBOX_VERIF_EVENT hook, whether the list lock is really held in the required mode: a helper
-// thread tries to take the lock in the conflicting mode and must fail.
-//   list-push / list-erase  (writers)  : a shared try-lock from another thread must fail
-//   list-visit              (readers)  : a unique try-lock from another thread must fail
+// RLBOX_VERIF_EVENT hook, whether writers of the list are really excluded at that moment: a helper
+// thread creates and destroys a sandbox of its own (which needs the list exclusively) and must
+// not get through before the reporting thread has left its guarded scope.
 // usage: lock_driver <out>
 #define RLBOX_USE_EXCEPTIONS
 #if defined(BK_NOOP)
@@ -19,8 +18,10 @@
 #endif
 #include "trace.hpp"
 
+#include <atomic>
+#include <chrono>
+#include <map>
 #include <memory>
-#include <shared_mutex>
 #include <string>
 #include <thread>
 #include <vector>
@@ -33,44 +34,54 @@ using Sbx = rlbox_vm_sandbox<vm_abi_wasm32, 12, true, 4>; // finder-based: looku
 #endif
 using RS = rlbox_sandbox<Sbx>;
 
-// access to the private static list lock (explicit instantiation may name private members)
-template<typename Tag, typename Tag::type M>
-struct Rob
-{
-  friend typename Tag::type get(Tag) { return M; }
-};
-struct ListLockTag
-{
-  using type = std::shared_timed_mutex*;
-  friend type get(ListLockTag);
-};
-template struct Rob<ListLockTag, &RS::sandbox_list_lock>;
-
 static tr::Out out;
 static std::string g_phase;
+static std::thread::id g_main;
+static std::vector<std::thread> g_helpers;
+static std::map<std::string, int> g_budget;
+
+// Is the calling thread, right now, excluding writers of the live-sandbox list? Another thread
+// tries to create (and destroy) a sandbox of its own - which needs the list lock exclusively -
+// and must not get through while the caller is inside its guarded scope. Behavioural on purpose:
+// it does not depend on how the library represents or names its lock.
+static bool helper_gets_through(int wait_ms)
+{
+  auto done = std::make_shared<std::atomic<bool>>(false);
+  g_helpers.emplace_back([done] {
+    try {
+      RS tmp;
+      tmp.create_sandbox();
+      tmp.destroy_sandbox();
+    } catch (...) {
+    }
+    done->store(true);
+  });
+  for (int i = 0; i < wait_ms && !done->load(); i++) {
+    std::this_thread::sleep_for(std::chrono::milliseconds(1));
+  }
+  return done->load();
+}
+static void join_helpers()
+{
+  for (auto& t : g_helpers) {
+    t.join();
+  }
+  g_helpers.clear();
+}
+
 static void on_list_event(const char* kind, const void* ptr)
 {
-  std::shared_timed_mutex* m = get(ListLockTag{});
-  bool writer = std::string(kind) != "list-visit";
-  bool conflicting_lock_taken = false;
-  std::thread probe([&] {
-    if (writer) {
-      if (m->try_lock_shared()) {
-        conflicting_lock_taken = true;
-        m->unlock_shared();
-      }
-    } else {
-      if (m->try_lock()) {
-        conflicting_lock_taken = true;
-        m->unlock();
-      }
-    }
-  });
-  probe.join();
-  tr::Ev e("lockprobe");
-  e.str("kind", kind).str("phase", g_phase).str("needs", writer ? "unique" : "shared").boolean("held", !conflicting_lock_taken);
-  out.put(e);
   (void)ptr;
+  if (std::this_thread::get_id() != g_main) {
+    return; // (the helper's own list accesses)
+  }
+  if (g_budget[g_phase + kind]++ >= 2) {
+    return;
+  }
+  bool through = helper_gets_through(150);
+  tr::Ev e("lockprobe");
+  e.str("kind", kind).str("phase", g_phase).str("needs", std::string(kind) == "list-visit" ? "shared" : "unique").boolean("held", !through);
+  out.put(e);
 }
 
 int main(int argc, char** argv)
@@ -78,24 +89,28 @@ int main(int argc, char** argv)
   if (argc < 2 || !out.open(argv[1])) {
     return 2;
   }
-  detail::verif_event_hook = on_list_event;
-  // outside every operation nobody holds the lock (the probe itself can succeed)
+  g_main = std::this_thread::get_id();
+  // outside every operation nobody holds the lock: the helper must get through (otherwise the
+  // probe could never tell anything on this machine: exit code 3, reported as broken machinery)
   {
-    std::shared_timed_mutex* m = get(ListLockTag{});
-    bool free_now = m->try_lock();
-    if (free_now) {
-      m->unlock();
-    }
+    bool free_now = helper_gets_through(5000);
+    join_helpers();
     tr::Ev e("lockfree");
     e.boolean("free", free_now);
     out.put(e);
+    if (!free_now) {
+      out.close();
+      return 3;
+    }
   }
+  detail::verif_event_hook = on_list_event;
   std::vector<std::unique_ptr<RS>> sbs;
   for (int round = 0; round < 3; round++) {
     g_phase = "create";
     for (int i = 0; i < 3; i++) {
       sbs.push_back(std::make_unique<RS>());
       sbs.back()->create_sandbox();
+      join_helpers();
     }
     g_phase = "use";
     for (auto& s : sbs) {
@@ -111,20 +126,21 @@ int main(int argc, char** argv)
         s->free_in_sandbox(p);
       } catch (const std::runtime_error&) {
       }
+      join_helpers();
     }
     g_phase = "destroy";
     // not in creation order
     for (int i : { 1, 0, 2 }) {
       sbs[i]->destroy_sandbox();
+      join_helpers();
     }
     sbs.clear();
+    g_budget.clear();
   }
+  detail::verif_event_hook = nullptr;
   {
-    std::shared_timed_mutex* m = get(ListLockTag{});
-    bool free_now = m->try_lock();
-    if (free_now) {
-      m->unlock();
-    }
+    bool free_now = helper_gets_through(5000);
+    join_helpers();
     tr::Ev e("lockfree");
     e.boolean("free", free_now);
     out.put(e);
